@@ -6,6 +6,7 @@ actor; the handler perturbs / gates the hook points inside Compactor::run, trans
 commit). By construction the final content is the same for every legal interleaving:
 acknowledged inserts minus acknowledged deletes. Checked after all operations and passes have
 finished, and again after shutdown + reopen. A statement that failed must have had no effect."""
+import os
 import random
 
 from common import Report, Violation, parallel_map, h, run_sentinels
@@ -216,6 +217,9 @@ def run(tier, seed):
     rep.floor("acknowledged statements", tot["acked"], n * 6)
     rep.assumptions = ["current-thread runtime with a paused clock; multi-thread legs are in C10",
                        "a DELETE that reports the compaction conflict error is not acknowledged and must have no effect"]
+    if tier == "thorough" and not os.environ.get("VERIF_OVERLAY"):
+        import sanitize
+        sanitize.overlay(rep, "asan", timeout=5400)
     return rep.finish()
 
 
